@@ -169,6 +169,9 @@ macro_rules! step_apply_quant {
         fn $name() {
             use oxidd_core::function::BooleanFunctionQuant;
             let mut s = setup_n(RANK_APPLY_QUANT, $mi, al_apply_quant($q, $bop));
+            // only the lookup with three operands (f, g, vars) is the top-level one; the
+            // delegated not / quantification / apply calls are answered by the oracle
+            s.cache.miss_arity = 3;
             let f = sym::any_edge(&s, s.init_c.get());
             let g = sym::any_edge(&s, s.init_c.get());
             let v = sym::any_edge(&s, s.init_c.get());
@@ -262,6 +265,105 @@ macro_rules! step_substitute {
             let r = B::substitute_edge(&s, &f, &sub);
             post_q(&s, &r, want);
             kani::cover!(s.cache.adds.get() > 0 && r.is_ok(), "non-terminal path with cache insertion");
+        }
+    };
+}
+
+
+// ---------------------------------------------------------------- constants, variables, eval, cofactors (C02)
+macro_rules! base_var_eval {
+    ($name:ident) => {
+        #[kani::proof]
+        #[kani::unwind(6)]
+        fn $name() {
+            let s = setup_order(0, 3, &[]);
+            {
+                let (ef, et) = (B::f_edge(&s), B::t_edge(&s));
+                assert!(s.g(&ef) == 0, "C02: f is false under every assignment");
+                assert!(s.g(&et) == !0, "C02: t is true under every assignment");
+                s.drop_edge(ef);
+                s.drop_edge(et);
+            }
+            let var: VarNo = kani::any();
+            kani::assume((var as usize) < L);
+            let l = s.var2level[var as usize] as usize;
+            let which: u8 = kani::any();
+            if which == 0 {
+                let r = B::var_edge(&s, var);
+                if let Ok(e) = &r {
+                    assert!(s.g(e) == MASK[l], "C02: var(v) is true exactly under the assignments with v = 1 (under the current variable order)");
+                }
+                post_struct(&s, &r);
+                kani::cover!(r.is_ok() && s.created.get() == 1, "variable node created");
+            } else if which == 1 {
+                let r = B::not_var_edge(&s, var);
+                if let Ok(e) = &r {
+                    assert!(s.g(e) == !MASK[l], "C02: not_var(v) is true exactly under the assignments with v = 0");
+                }
+                post_struct(&s, &r);
+            } else if which == 2 {
+                // eval against the ghost table, all variables given
+                let f = sym::any_edge(&s, s.init_c.get());
+                let vals: [bool; L] = k_any_bools_step();
+                let mut a = 0usize; // assignment index by *level*
+                macro_rules! lv { ($v:expr) => { if $v < L && vals[$v] { a |= 1 << (s.var2level[$v] as usize); } } }
+                lv!(0); lv!(1); lv!(2); lv!(3);
+                let got = B::eval_edge(&s, &f, k_args(&vals));
+                assert!(got == ((s.g(&f) >> a) & 1 == 1), "C02: eval agrees with the node-by-node interpretation of the diagram under the current variable order");
+                kani::cover!(got && !f.is_terminal(), "eval of an inner node to true");
+            } else {
+                let f = sym::any_edge(&s, s.init_c.get());
+                match B::cofactors_edge(&s, &f) {
+                    Some((t, e)) => {
+                        let lf = s.level_of(&f) as usize;
+                        assert!(lf < L && s.g(&t) == cof1(s.g(&f), lf) && s.g(&e) == cof0(s.g(&f), lf), "C02: cofactors are the two Shannon cofactors w.r.t. the top-most variable");
+                    }
+                    None => assert!(f.is_terminal(), "C02: only constants have no cofactors"),
+                }
+            }
+        }
+    };
+}
+pub fn k_any_bools_step() -> [bool; L] {
+    let mut a = [false; L];
+    macro_rules! e { ($i:expr) => { if $i < L { a[$i] = kani::any(); } } }
+    e!(0); e!(1); e!(2); e!(3);
+    a
+}
+pub fn k_args(vals: &[bool; L]) -> [(VarNo, bool); L] {
+    let mut a = [(0, false); L];
+    macro_rules! e { ($i:expr) => { if $i < L { a[$i] = ($i as VarNo, vals[$i]); } } }
+    e!(0); e!(1); e!(2); e!(3);
+    a
+}
+
+// ---------------------------------------------------------------- apply_quant: delegated terminal cases (C04, C05, C14)
+/// One operand is a constant, so that the inner operator's terminal case applies and
+/// apply_quant delegates to `not` + quantification / plain quantification. Here the lookup of
+/// the delegated *quantification* (two operands) is the one that misses, i.e. the
+/// quantification runs as the real top-level step and can run out of memory, which is what
+/// exposes results that are not released on the error path.
+macro_rules! step_apply_quant_deleg {
+    ($name:ident, $f:ident, $q:expr, $bop:expr, $mi:expr, $spec:expr) => {
+        #[kani::proof]
+        #[kani::unwind(6)]
+        fn $name() {
+            use oxidd_core::function::BooleanFunctionQuant;
+            let mut s = setup_n(RANK_APPLY_QUANT, $mi, al_apply_quant($q, $bop));
+            s.cache.miss_arity = 2;
+            let f = sym::any_edge(&s, s.init_c.get());
+            let g = sym::any_edge(&s, s.init_c.get());
+            let v = sym::any_edge(&s, s.init_c.get());
+            kani::assume(f.is_terminal() || g.is_terminal());
+            kani::assume(is_pos_cube(s.g(&v)) && s.g(&v) != 0);
+            s.cache.top_level = 0;
+            s.cache.top_rank = RANK_APPLY_QUANT;
+            let spec: fn(G, G) -> G = $spec;
+            let want = quant_tt($q, spec(s.g(&f), s.g(&g)), s.g(&v));
+            let r = B::$f(&s, $bop, &f, &g, &v);
+            post_q(&s, &r, want);
+            kani::cover!(r.is_err(), "out-of-memory inside the delegated operation");
+            kani::cover!(r.is_ok() && s.created.get() > 0, "delegated operation creates a node");
         }
     };
 }
